@@ -618,6 +618,9 @@ func faultyWrites(rnd *rand.Rand, cat *Catalog, hot string) []UStep {
 // call; the caller repeats the call on the same unified writer, then reads the blob back.
 func faultyUpload(rnd *rand.Rand, cat *Catalog, r string, ids []string) []UStep {
 	var steps []UStep
+	if len(ids) < 3 {
+		return nil // the history before has used up the sessions
+	}
 	var blobs []*Content
 	for _, c := range cat.Contents {
 		if !c.Man && len(c.Elems) >= 1 {
@@ -685,6 +688,26 @@ func faultyUpload(rnd *rand.Rand, cat *Catalog, r string, ids []string) []UStep 
 	return steps
 }
 
+// freeUploads picks n upload ids no step so far has named, from the back of the universe,
+// leaving the first four (later histories open their sessions there) and the last three (the
+// interrupted uploads) alone.  nil if there are not enough.
+func freeUploads(steps []UStep, cat *Catalog, n int) []string {
+	used := map[string]bool{}
+	for _, st := range steps {
+		used[st.Op.U] = true
+	}
+	var out []string
+	for i := len(cat.Uploads) - 4; i >= 4 && len(out) < n; i-- {
+		if !used[cat.Uploads[i]] {
+			out = append(out, cat.Uploads[i])
+		}
+	}
+	if len(out) < n {
+		return nil
+	}
+	return out
+}
+
 func viaU(ops []Op) []UStep {
 	steps := make([]UStep, len(ops))
 	for i, o := range ops {
@@ -703,7 +726,7 @@ func genUnifyScenario(rnd *rand.Rand, cat *Catalog, i int) UScenario {
 		sc.Steps = append(sc.Steps, readSweep(rnd, cat, hot, i%5 == 0)...)
 		sc.Steps = append(sc.Steps, asymWrites(rnd, cat, hot)...)
 		sc.Steps = append(sc.Steps, faultyWrites(rnd, cat, hot)...)
-		sc.Steps = append(sc.Steps, faultyUpload(rnd, cat, hot, cat.Uploads[len(cat.Uploads)-6:])...)
+		sc.Steps = append(sc.Steps, faultyUpload(rnd, cat, hot, freeUploads(sc.Steps, cat, 3))...)
 		sc.Steps = append(sc.Steps, viaU(randOps(rnd, cat, 12, "all", true))...)
 		if rnd.Intn(2) == 0 {
 			sc.Steps = append(sc.Steps, resumeUpload(rnd, cat, hot, cat.Uploads[len(cat.Uploads)-1])...)
@@ -713,7 +736,7 @@ func genUnifyScenario(rnd *rand.Rand, cat *Catalog, i int) UScenario {
 		prof := []string{"all", "upload", "manifest"}[rnd.Intn(3)]
 		sc.Steps = viaU(randOps(rnd, cat, 30, prof, rnd.Intn(3) != 0))
 		sc.Steps = append(sc.Steps, faultyWrites(rnd, cat, hot)...)
-		sc.Steps = append(sc.Steps, faultyUpload(rnd, cat, hot, cat.Uploads[len(cat.Uploads)-6:])...)
+		sc.Steps = append(sc.Steps, faultyUpload(rnd, cat, hot, freeUploads(sc.Steps, cat, 3))...)
 		sc.Steps = append(sc.Steps, viaU(randOps(rnd, cat, 6, "manifest", true))...)
 	case 3: // chunked uploads with resume through the unifier
 		sc.Kind = "resume"
